@@ -147,20 +147,8 @@ func sliceLen(v ssa.Value) (int64, bool) {
 func storageField(s *site) *types.Var {
 	var out *types.Var
 	for _, st := range s.D.Stores {
-		u, ok := st.Val.(*ssa.UnOp)
-		if !ok || u.Op != token.MUL {
-			continue
-		}
-		ia, ok := u.X.(*ssa.IndexAddr)
+		f, _, ok := blockElem(st.Val, 0)
 		if !ok {
-			continue
-		}
-		ld, ok := ia.X.(*ssa.UnOp)
-		if !ok || ld.Op != token.MUL {
-			continue
-		}
-		f := ssau.FieldOf(ld.X)
-		if f == nil {
 			continue
 		}
 		if out != nil && out != f {
@@ -362,20 +350,12 @@ func writerBlock(fn *ssa.Function, m *slotModel, idxCall *ssa.Call, storage *typ
 		if !ok || ia.Index != ssa.Value(idxCall) {
 			continue
 		}
-		ld, ok := ia.X.(*ssa.UnOp)
-		if !ok || ld.Op != token.MUL {
-			continue
-		}
-		ia2, ok := ld.X.(*ssa.IndexAddr)
-		if !ok {
-			continue
-		}
-		ld2, ok := ia2.X.(*ssa.UnOp)
-		if !ok || ld2.Op != token.MUL || ssau.FieldOf(ld2.X) != storage {
+		f, blockIndex, ok := blockElem(ia.X, 0)
+		if !ok || f != storage {
 			continue
 		}
 		// blockIndex = call(…, cp) with exactly one VectorInt argument, or a map lookup keyed by cp
-		switch bi := ia2.Index.(type) {
+		switch bi := blockIndex.(type) {
 		case *ssa.Call:
 			var cp ssa.Value
 			k := 0
@@ -406,4 +386,134 @@ func structRoot(v ssa.Value) ssa.Value {
 		}
 	}
 	return v
+}
+
+// blockElem: v is an element of a block list held in a struct field — `(*base.f)[idx]` — read directly, or
+// handed out by an in-package helper whose every return is such an element of a field of the helper's own
+// receiver / parameter, subscripted by one of the helper's parameters (a locked lookup moved into a function).
+// Returns the field and the index value in the caller's terms. A helper that returns anything else on some
+// path (a copy, an element of another expression, a constant or computed position) is not followed.
+func blockElem(v ssa.Value, depth int) (*types.Var, ssa.Value, bool) {
+	switch t := v.(type) {
+	case *ssa.UnOp:
+		if t.Op != token.MUL {
+			return nil, nil, false
+		}
+		ia, ok := t.X.(*ssa.IndexAddr)
+		if !ok {
+			return nil, nil, false
+		}
+		ld, ok := ia.X.(*ssa.UnOp)
+		if !ok || ld.Op != token.MUL {
+			return nil, nil, false
+		}
+		f := ssau.FieldOf(ld.X)
+		if f == nil {
+			return nil, nil, false
+		}
+		return f, ia.Index, true
+	case *ssa.Call:
+		h := t.Call.StaticCallee()
+		if depth >= 2 || h == nil || t.Parent() == nil || h.Pkg != t.Parent().Pkg || len(h.Blocks) == 0 || h.Signature.Results().Len() != 1 {
+			return nil, nil, false
+		}
+		// the recover block of a function with defers is only entered when a deferred call recovers;
+		// deferred calls into other packages (Unlock) cannot recover for this frame
+		skip := h.Recover
+		ssau.AllInstrs(h, func(in ssa.Instruction) {
+			if d, ok := in.(*ssa.Defer); ok {
+				if c := d.Call.StaticCallee(); c == nil || c.Pkg == h.Pkg {
+					skip = nil
+				}
+			}
+		})
+		var field *types.Var
+		var param *ssa.Parameter
+		n := 0
+		for _, b := range h.Blocks {
+			if b == skip {
+				continue
+			}
+			ret, ok := b.Instrs[len(b.Instrs)-1].(*ssa.Return)
+			if !ok {
+				continue
+			}
+			if len(ret.Results) != 1 {
+				return nil, nil, false
+			}
+			// with a defer the result travels through a result cell: *cell = value; rundefers; return *cell
+			vals := []ssa.Value{ret.Results[0]}
+			if ld, ok := ret.Results[0].(*ssa.UnOp); ok && ld.Op == token.MUL {
+				if cell, ok := ld.X.(*ssa.Alloc); ok {
+					vals = nil
+					dominated := false
+					for _, r := range ssau.Refs(cell) {
+						switch u := r.(type) {
+						case *ssa.Store:
+							if u.Addr != ssa.Value(cell) {
+								return nil, nil, false
+							}
+							vals = append(vals, u.Val)
+							if u.Block() == b || u.Block().Dominates(b) {
+								dominated = true
+							}
+						case *ssa.UnOp, *ssa.DebugRef:
+						default:
+							return nil, nil, false
+						}
+					}
+					if !dominated {
+						return nil, nil, false
+					}
+				}
+			}
+			for _, rv := range vals {
+				f, idx, ok := blockElem(rv, depth+1)
+				if !ok {
+					return nil, nil, false
+				}
+				// the list is a field of the helper's own receiver / parameter
+				u, ok := rv.(*ssa.UnOp)
+				if !ok {
+					return nil, nil, false // an element handed on from a further helper: not followed
+				}
+				ld := u.X.(*ssa.IndexAddr).X.(*ssa.UnOp)
+				fa, ok := ld.X.(*ssa.FieldAddr)
+				if !ok {
+					return nil, nil, false
+				}
+				switch base := fa.X.(type) {
+				case *ssa.Parameter:
+				case *ssa.Alloc:
+					if paramOfSpill(base) == nil {
+						return nil, nil, false
+					}
+				default:
+					return nil, nil, false
+				}
+				for {
+					cv, ok := idx.(*ssa.Convert)
+					if !ok {
+						break
+					}
+					idx = cv.X
+				}
+				p, ok := idx.(*ssa.Parameter)
+				if !ok || (field != nil && (field != f || param != p)) {
+					return nil, nil, false
+				}
+				field, param = f, p
+				n++
+			}
+		}
+		if n == 0 {
+			return nil, nil, false
+		}
+		for i, q := range h.Params {
+			if q == param && i < len(t.Call.Args) {
+				return field, t.Call.Args[i], true
+			}
+		}
+	}
+	return nil, nil, false
 }
